@@ -702,4 +702,288 @@ def exM2 : Member :=
 example : (⟨"", exA.target⟩ : VarName) ∈ exM2.mentions ∧ exM2.isAuditor = true ∧
     (∀ d ∈ (Expr.bin .add (.var ⟨"", "x"⟩) (.lit (.num 1))).deps, d = ⟨"", exA.target⟩) := by decide
 
+/-! ## 6. A `collects` variable over whole rounds
+
+The variable grows by the values its own expression yields in the visits of its owner — in a period, its opening and its
+closing round included — and by nothing else; `collects_step` was the single assignment, `persists_while_dormant` the rounds
+in which the owner sleeps; here is every round, and with it every run. -/
+
+/-- the step of the collector agrees with the specification on every value it accepts (a string offered to `top` /
+`bottom` is not accepted: it is the evaluation error) -/
+theorem collectStep_spec (m : Mode) (n : Nat) (hn : 1 ≤ n) (xs : List Sc) (y : Sc) (l : List Sc)
+    (h : collectStep m n (collectSpec m n xs) y = some l) : l = collectSpec m n (xs ++ [y]) := by
+  by_cases hstr : (m = .top ∨ m = .bottom) ∧ Sc.isStr y = true
+  · exfalso
+    obtain ⟨hm, hy⟩ := hstr
+    cases y <;> simp [Sc.isStr] at hy
+    rcases hm with rfl | rfl <;> simp [collectStep, Sc.numOf] at h
+  · have hx : m = .top ∨ m = .bottom → ∀ z ∈ [y], Sc.isStr z = false := by
+      intro hm z hz
+      simp only [List.mem_singleton] at hz
+      subst hz
+      cases hs : Sc.isStr z with
+      | false => rfl
+      | true => exact absurd ⟨hm, hs⟩ hstr
+    have := collect_split m n hn xs [y] hx
+    rw [collectRun_cons, h] at this
+    simpa using this
+
+/-- the variable of the clause `a` holds the specified aggregate of a history that extends `xs` by at most one value, and
+that value is what `a.expr` evaluated to in a state in which the owner was inside a period -/
+def Grows (a : Assign) (owner : String) (xs : List Sc) (s' : St) : Prop :=
+  ∃ ys : List Sc, ys.length ≤ 1 ∧
+    curArray (s'.vals ⟨"", a.target⟩) = collectSpec a.mode a.n (xs ++ ys) ∧
+    ∀ y ∈ ys, ∃ s1 : St, eval s1.vals a.expr = .ok (.sc y) ∧ (s1.aud owner).auditing = true
+
+theorem Grows.of_same {a : Assign} {owner : String} {xs : List Sc} {s s' : St}
+    (h : curArray (s.vals ⟨"", a.target⟩) = collectSpec a.mode a.n xs)
+    (hv : s'.vals ⟨"", a.target⟩ = s.vals ⟨"", a.target⟩) : Grows a owner xs s' :=
+  ⟨[], by simp, by simpa [hv] using h, by simp⟩
+
+theorem Grows.of_later {a : Assign} {owner : String} {xs : List Sc} {s s' : St}
+    (h : Grows a owner xs s) (hv : s'.vals ⟨"", a.target⟩ = s.vals ⟨"", a.target⟩) : Grows a owner xs s' := by
+  obtain ⟨ys, h1, h2, h3⟩ := h
+  exact ⟨ys, h1, by rw [hv]; exact h2, h3⟩
+
+theorem assignOne_auditing (c : Cfg) (ts : Rat) (s : St) (a : Assign) (n : String) :
+    ((assignOne c ts s a).aud n).auditing = (s.aud n).auditing := by
+  unfold assignOne
+  repeat' split
+  all_goals first
+    | rfl
+    | (unfold setVar; repeat' split
+       all_goals first
+         | rfl
+         | (simp only; split <;> rfl))
+
+theorem assignAll_auditing (c : Cfg) (ts : Rat) (as : List Assign) (n : String) :
+    ∀ s : St, ((assignAll c ts s as).aud n).auditing = (s.aud n).auditing := by
+  induction as with
+  | nil => intro s; rfl
+  | cons a as ih =>
+    intro s
+    simp only [assignAll, List.foldl_cons]
+    have := ih (assignOne c ts s a)
+    simp only [assignAll] at this
+    rw [this, assignOne_auditing]
+
+/-- the clause itself -/
+theorem assignOne_grows (c : Cfg) (ts : Rat) (s : St) (a : Assign) (owner : String) (xs : List Sc)
+    (hm : a.mode ≠ .single) (hn : 1 ≤ a.n) (haud : (s.aud owner).auditing = true)
+    (hinv : curArray (s.vals ⟨"", a.target⟩) = collectSpec a.mode a.n xs) :
+    Grows a owner xs (assignOne c ts s a) := by
+  unfold assignOne
+  split
+  · exact Grows.of_same hinv rfl
+  · split
+    · exact Grows.of_same hinv rfl
+    · split
+      · exact Grows.of_same hinv rfl
+      · exact Grows.of_same hinv rfl
+      · rename_i v hev
+        split
+        · rename_i hs; exact absurd hs hm
+        · split
+          · exact Grows.of_same hinv rfl
+          · rename_i y
+            split
+            · exact Grows.of_same hinv rfl
+            · rename_i l hl
+              rw [hinv] at hl
+              have hl' := collectStep_spec a.mode a.n hn xs y l hl
+              refine ⟨[y], by simp, ?_, ?_⟩
+              · rw [setVar_vals _ _ _ _ _ _ _ rfl, hl']; simp [curArray]
+              · intro z hz
+                simp only [List.mem_singleton] at hz
+                subst hz
+                exact ⟨s, hev, haud⟩
+
+/-- all the clauses of the owner: the ones before and after `a` do not touch the variable -/
+theorem assignAll_grows (c : Cfg) (ts : Rat) (s : St) (a : Assign) (pre post : List Assign) (owner : String)
+    (xs : List Sc) (hm : a.mode ≠ .single) (hn : 1 ≤ a.n)
+    (hpre : ∀ b ∈ pre, (⟨"", b.target⟩ : VarName) ≠ ⟨"", a.target⟩)
+    (hpost : ∀ b ∈ post, (⟨"", b.target⟩ : VarName) ≠ ⟨"", a.target⟩)
+    (haud : (s.aud owner).auditing = true)
+    (hinv : curArray (s.vals ⟨"", a.target⟩) = collectSpec a.mode a.n xs) :
+    Grows a owner xs (assignAll c ts s (pre ++ a :: post)) := by
+  have e : assignAll c ts s (pre ++ a :: post) =
+      assignAll c ts (assignOne c ts (assignAll c ts s pre) a) post := by
+    simp [assignAll, List.foldl_append]
+  rw [e]
+  have h1 : (assignAll c ts s pre).vals ⟨"", a.target⟩ = s.vals ⟨"", a.target⟩ :=
+    (assignAll_ext (· ≠ (⟨"", a.target⟩ : VarName)) c ts s pre hpre).vals _ (by simp)
+  have h2 := assignOne_grows c ts (assignAll c ts s pre) a owner xs hm hn
+    (by rw [assignAll_auditing]; exact haud) (by rw [h1]; exact hinv)
+  exact h2.of_later ((assignAll_ext (· ≠ (⟨"", a.target⟩ : VarName)) c ts _ post hpost).vals _ (by simp))
+
+theorem startPeriod_auditing (s : St) (m : Member) : ((startPeriod s m).aud m.name).auditing = true := by
+  simp [startPeriod, setAud, St.emit]
+
+/-- a visit of the owner -/
+theorem visit_grows (c : Cfg) (final : Bool) (ts : Rat) (s : St) (m0 : Member) (a : Assign)
+    (pre post : List Assign) (xs : List Sc) (hm : a.mode ≠ .single) (hn : 1 ≤ a.n)
+    (has : m0.assigns = pre ++ a :: post)
+    (hpre : ∀ b ∈ pre, (⟨"", b.target⟩ : VarName) ≠ ⟨"", a.target⟩)
+    (hpost : ∀ b ∈ post, (⟨"", b.target⟩ : VarName) ≠ ⟨"", a.target⟩)
+    (hinv : curArray (s.vals ⟨"", a.target⟩) = collectSpec a.mode a.n xs) :
+    Grows a m0.name xs (visit c final ts s m0) := by
+  unfold visit
+  split
+  · exact Grows.of_same hinv rfl
+  · split
+    · exact Grows.of_same hinv rfl
+    · exact Grows.of_same hinv rfl
+    · rename_i auditing _
+      split
+      · rw [has]
+        exact (assignAll_grows c ts (startPeriod s m0) a pre post m0.name xs hm hn hpre hpost
+          (startPeriod_auditing s m0) (by rw [startPeriod_vals]; exact hinv)).of_later
+          (by rw [checkExpect_vals])
+      · split
+        · exact Grows.of_same hinv rfl
+        · rename_i hnot
+          have haud : (s.aud m0.name).auditing = true := by simpa using hnot
+          split
+          · rw [has]
+            exact (assignAll_grows c ts s a pre post m0.name xs hm hn hpre hpost haud hinv).of_later
+              (by rw [checkExpect_vals])
+          · rw [has]
+            exact (assignAll_grows c ts s a pre post m0.name xs hm hn hpre hpost haud hinv).of_later
+              (by rw [endPeriod_vals, checkExpect_vals])
+
+/-- **Every round**: a `collects` variable that holds the specified aggregate of a history `xs` holds, after any round
+of the audition — whatever the samples, whoever else is in the audience, whether its owner is visited, starts, continues
+or closes a period, or sleeps — the specified aggregate of `xs` extended by at most one value, and that value is what
+its expression evaluated to while the owner was inside a period.  (`a` is the only clause that assigns the variable.) -/
+theorem collects_round (c : Cfg) (final : Bool) (ts : Rat) (samples : List Sample) (s : St)
+    (preM postM : List Member) (m0 : Member) (a : Assign) (pre post : List Assign) (xs : List Sc)
+    (hc : c.members = preM ++ m0 :: postM) (has : m0.assigns = pre ++ a :: post)
+    (hm : a.mode ≠ .single) (hn : 1 ≤ a.n)
+    (ht : (⟨"", a.target⟩ : VarName) ≠ ⟨"", "t"⟩) (hmood : (⟨"", a.target⟩ : VarName) ≠ ⟨"", "mood"⟩)
+    (hmt : (⟨"", a.target⟩ : VarName) ≠ ⟨"", "moodt"⟩) (hs : ∀ x ∈ samples, x.v ≠ ⟨"", a.target⟩)
+    (hpre : ∀ b ∈ pre, (⟨"", b.target⟩ : VarName) ≠ ⟨"", a.target⟩)
+    (hpost : ∀ b ∈ post, (⟨"", b.target⟩ : VarName) ≠ ⟨"", a.target⟩)
+    (hpreM : ∀ m ∈ preM, ∀ b ∈ m.assigns, (⟨"", a.target⟩ : VarName) ≠ ⟨"", b.target⟩)
+    (hpostM : ∀ m ∈ postM, ∀ b ∈ m.assigns, (⟨"", a.target⟩ : VarName) ≠ ⟨"", b.target⟩)
+    (hinv : curArray (s.vals ⟨"", a.target⟩) = collectSpec a.mode a.n xs) :
+    Grows a m0.name xs (round c final ts samples s) := by
+  rw [round_eq]; split
+  · exact Grows.of_same hinv rfl
+  · rw [hc, List.foldl_append, List.foldl_cons]
+    have h0 : (beginRound c ts samples s).vals ⟨"", a.target⟩ = s.vals ⟨"", a.target⟩ :=
+      beginRound_vals c ts samples s _ ht hmood hmt hs
+    have h1 : (preM.foldl (roundStep c final ts) (beginRound c ts samples s)).vals ⟨"", a.target⟩
+        = s.vals ⟨"", a.target⟩ := by
+      rw [persist_other_members c final ts _ preM _ hpreM, h0]
+    have h2 : Grows a m0.name xs
+        (roundStep c final ts (preM.foldl (roundStep c final ts) (beginRound c ts samples s)) m0) := by
+      generalize preM.foldl (roundStep c final ts) (beginRound c ts samples s) = s1 at h1 ⊢
+      unfold roundStep
+      split
+      · exact visit_grows c final ts _ m0 a pre post xs hm hn has hpre hpost (by rw [h1]; exact hinv)
+      · exact Grows.of_same hinv h1
+    exact h2.of_later (persist_other_members c final ts _ postM _ hpostM)
+
+/-- what the history consists of -/
+def Produced (a : Assign) (owner : String) (xs : List Sc) : Prop :=
+  ∀ y ∈ xs, ∃ s1 : St, eval s1.vals a.expr = .ok (.sc y) ∧ (s1.aud owner).auditing = true
+
+/-- the invariant of a whole run -/
+def HoldsHistory (a : Assign) (owner : String) (s : St) : Prop :=
+  ∃ xs, curArray (s.vals ⟨"", a.target⟩) = collectSpec a.mode a.n xs ∧ Produced a owner xs
+
+theorem HoldsHistory.step {a : Assign} {owner : String} {s s' : St}
+    (h : HoldsHistory a owner s)
+    (hg : ∀ xs, curArray (s.vals ⟨"", a.target⟩) = collectSpec a.mode a.n xs → Grows a owner xs s') :
+    HoldsHistory a owner s' := by
+  obtain ⟨xs, h1, h2⟩ := h
+  obtain ⟨ys, _, h4, h5⟩ := hg xs h1
+  refine ⟨xs ++ ys, h4, ?_⟩
+  intro y hy
+  rcases List.mem_append.mp hy with hy | hy
+  · exact h2 y hy
+  · exact h5 y hy
+
+theorem HoldsHistory.same {a : Assign} {owner : String} {s s' : St}
+    (h : HoldsHistory a owner s) (hv : s'.vals ⟨"", a.target⟩ = s.vals ⟨"", a.target⟩) : HoldsHistory a owner s' := by
+  obtain ⟨xs, h1, h2⟩ := h
+  exact ⟨xs, by rw [hv]; exact h1, h2⟩
+
+/-- **Every run**: after any sequence of mood changes and samples, and the final round, a `first | last | top | bottom N`
+variable holds exactly the specified aggregate — the first N, the last N, the N largest in descending order, the N smallest
+in ascending order, of the non-nil ones — of a sequence of values each of which its expression produced while its owner
+was inside an activation period (opening and closing rounds included: the closing round is the known finding of C02). -/
+theorem collects_over_a_run (c : Cfg) (evs : List Ev) (tEnd : Rat)
+    (preM postM : List Member) (m0 : Member) (a : Assign) (pre post : List Assign)
+    (hc : c.members = preM ++ m0 :: postM) (has : m0.assigns = pre ++ a :: post)
+    (hm : a.mode ≠ .single) (hn : 1 ≤ a.n)
+    (ht : (⟨"", a.target⟩ : VarName) ≠ ⟨"", "t"⟩) (hmood : (⟨"", a.target⟩ : VarName) ≠ ⟨"", "mood"⟩)
+    (hmt : (⟨"", a.target⟩ : VarName) ≠ ⟨"", "moodt"⟩)
+    (hsig : ∀ e ∈ evs, ∀ t xs, e = Ev.sig t xs → ∀ x ∈ xs, x.v ≠ ⟨"", a.target⟩)
+    (hpre : ∀ b ∈ pre, (⟨"", b.target⟩ : VarName) ≠ ⟨"", a.target⟩)
+    (hpost : ∀ b ∈ post, (⟨"", b.target⟩ : VarName) ≠ ⟨"", a.target⟩)
+    (hpreM : ∀ m ∈ preM, ∀ b ∈ m.assigns, (⟨"", a.target⟩ : VarName) ≠ ⟨"", b.target⟩)
+    (hpostM : ∀ m ∈ postM, ∀ b ∈ m.assigns, (⟨"", a.target⟩ : VarName) ≠ ⟨"", b.target⟩) :
+    HoldsHistory a m0.name (run c evs tEnd) := by
+  have hround : ∀ (final : Bool) (ts : Rat) (samples : List Sample) (s : St),
+      (∀ x ∈ samples, x.v ≠ ⟨"", a.target⟩) → HoldsHistory a m0.name s →
+      HoldsHistory a m0.name (round c final ts samples s) := by
+    intro final ts samples s hs h
+    exact h.step (fun xs hx => collects_round c final ts samples s preM postM m0 a pre post xs hc has hm hn ht hmood hmt
+      hs hpre hpost hpreM hpostM hx)
+  have hstart : HoldsHistory a m0.name (start c) := by
+    unfold start
+    apply hround false 0 [] _ (by simp)
+    exact ⟨[], by simpa using collects_init a.mode a.n, by intro y hy; cases hy⟩
+  have hstep : ∀ (s : St) (e : Ev), e ∈ evs → HoldsHistory a m0.name s → HoldsHistory a m0.name (stepEv c s e) := by
+    intro s e he h
+    cases e with
+    | mood ts m =>
+      simp only [stepEv]
+      split
+      · exact h
+      · have h1 := hround false ts [] s (by simp) h
+        split
+        · exact h1
+        · exact hround false ts [] _ (by simp) (h1.same rfl)
+    | sig ts xs =>
+      simp only [stepEv]
+      exact hround false ts xs s (hsig _ he ts xs rfl) h
+  have hfold : ∀ (l : List Ev) (s : St), (∀ e ∈ l, e ∈ evs) → HoldsHistory a m0.name s →
+      HoldsHistory a m0.name (l.foldl (stepEv c) s) := by
+    intro l
+    induction l with
+    | nil => intro s _ h; exact h
+    | cons e l ih =>
+      intro s hl h
+      simp only [List.foldl_cons]
+      exact ih _ (fun e' he' => hl e' (by simp [he'])) (hstep s e (hl e (by simp)) h)
+  unfold run
+  simp only
+  have h1 := hfold evs (start c) (fun e he => he) hstart
+  have h2 := hround true tEnd [] { (evs.foldl (stepEv c) (start c)) with abort := none } (by simp) (h1.same rfl)
+  exact h2.same rfl
+
+/-- the premises of `collects_over_a_run` are met by an ordinary audience: `m collects bin as first 3 [a s]` between a
+member that computes something else and one that only reads `bin` -/
+def exCol : Assign := ⟨"bin", .var ⟨"a", "s"⟩, .first, 3⟩
+def exOwner : Member :=
+  { name := "m", cond := .lit (.bool true), assigns := [⟨"pre", .var ⟨"", "t"⟩, .single, 1⟩, exCol], expect := none, watches := [] }
+def exAudience : Cfg := ⟨[exM2, exOwner, { exM2 with name := "m3" }]⟩
+
+example : HoldsHistory exCol "m"
+    (run exAudience [.sig 1 [⟨.scalar, ⟨"a", "s"⟩, .sc (.num 4)⟩], .mood 2 "red", .sig 3 [⟨.scalar, ⟨"a", "s"⟩, .sc (.num 5)⟩]] 9) :=
+  collects_over_a_run exAudience _ 9 [exM2] [{ exM2 with name := "m3" }] exOwner exCol
+    [⟨"pre", .var ⟨"", "t"⟩, .single, 1⟩] [] rfl rfl (by decide) (by decide) (by decide) (by decide) (by decide)
+    (by
+      intro e he t xs hx x hxs
+      simp only [List.mem_cons, List.not_mem_nil, or_false] at he
+      rcases he with rfl | rfl | rfl
+      · injection hx with _ h2; subst h2
+        simp only [List.mem_singleton] at hxs; subst hxs; decide
+      · cases hx
+      · injection hx with _ h2; subst h2
+        simp only [List.mem_singleton] at hxs; subst hxs; decide)
+    (by decide) (by decide) (by decide) (by decide)
+
 end Shk.C11
